@@ -39,7 +39,7 @@ META = {
                     'no fault space exists for this property (sequential refinement only)'],
     'probe_names': ['frag_into_frag', 'frag_insert_middle', 'empty_frag', 'equal_text_siblings',
                     'reinsertion_of_removed', 'normalize_merged', 'clone_deep', 'clone_shallow', 'attr_frag',
-                    'cmp_deep_common_ancestor', 'setitem_frag', 'detached_target', 'dfs_exhaustive', 'str_argument', 'shadow_container_edit'],
+                    'cmp_deep_common_ancestor', 'setitem_frag', 'detached_target', 'dfs_exhaustive', 'str_argument', 'shadow_container_edit', 'element_with_str'],
     'shrink_budget': 500,
     'enum_batch': {'quick': 4, 'thorough': 1},
 }
@@ -76,7 +76,7 @@ def generate(seed, tier):
     for k in range(n):
         o = r.choice(kinds)
         if o == 'NEW_ELEM':
-            ops.append({'op': o, 'tag': r.choice(TAGS)})
+            ops.append({'op': o, 'tag': r.choice(TAGS), 'str': ('S%d' % r.randrange(3)) if r.random() < 0.12 else None})
         elif o == 'NEW_TEXT':
             ops.append({'op': o, 'text': r.choice(TEXTS)})
         elif o == 'NEW_FRAG':
@@ -115,7 +115,7 @@ def _newfrag(r):
 # model
 
 class M(object):
-    __slots__ = ('kind', 'tag', 'text', 'children', 'parent', 'attrs', 'holder', 'spent', 'real', 'hid', 'shadow')
+    __slots__ = ('kind', 'tag', 'text', 'children', 'parent', 'attrs', 'holder', 'spent', 'real', 'hid', 'shadow', 'strval')
 
     def __init__(self, kind, real, tag=None, text=None, hid=0):
         self.kind, self.real, self.tag, self.text, self.hid = kind, real, tag, text, hid
@@ -124,6 +124,7 @@ class M(object):
         self.attrs = {}
         self.holder = None
         self.spent = False
+        self.strval = None      # plasTeX extension: an element whose `str` is set contributes that string as its text
         self.shadow = None      # nodes a spent fragment / shallow clone still LISTS although they live elsewhere
 
     def subtree(self):
@@ -168,8 +169,20 @@ class World(object):
         self.nodes.append(m)
         return m
 
-    def new_elem(self, tag):
-        return self._reg(M('e', self.doc.createElement(tag), tag=tag))
+    def new_elem(self, tag, strval=None):
+        m = self._reg(M('e', self.doc.createElement(tag), tag=tag))
+        if strval is not None:
+            m.real.str = strval
+            m.strval = strval
+            self.info['element_with_str'] = 1
+        return m
+
+    def text_of(self, m):
+        if m.kind == 't':
+            return m.text
+        if m.strval is not None:
+            return m.strval
+        return ''.join(self.text_of(c) for c in m.children)
 
     def new_text(self, text):
         return self._reg(M('t', self.doc.createTextNode(text), text=text))
@@ -239,7 +252,7 @@ class World(object):
         o = op['op']
         if o == 'NEW_ELEM':
             if len(self.nodes) < 24:
-                self.new_elem(op['tag'])
+                self.new_elem(op['tag'], op.get('str'))
             return
         if o == 'NEW_TEXT':
             if len(self.nodes) < 24:
@@ -496,6 +509,9 @@ class World(object):
 
     # -- clone
     def clone(self, t, deep):
+        if any(x.strval is not None for x in t.subtree()):
+            return      # `str` is a class-level shortcut of macro classes; the harness sets it per instance, which a
+                        # clone (a fresh instance of the class) legitimately does not carry
         c = t.real.cloneNode(deep)
         if deep:
             self.info['clone_deep'] = 1
@@ -658,7 +674,7 @@ class World(object):
                         raise Violation('C06|view|previousSibling', {'model': m.digest(), 'index': k})
                     if c.real.nextSibling is not en:
                         raise Violation('C06|view|nextSibling', {'model': m.digest(), 'index': k})
-            exp_text = ''.join(x.text for x in m.subtree() if x.kind == 't')
+            exp_text = self.text_of(m)
             if str(rc.textContent) != exp_text:
                 raise Violation('C06|view|textContent', {'model': m.digest(), 'expected': exp_text,
                                                          'got': str(rc.textContent)})
